@@ -20,11 +20,17 @@ Lemma no_jac_hag_ok eel0 eel1 eel2 deto0 deto1 deto2 p young nu A E dt theta z0 
 Proof.
   intros eel deto z H1 H2 Hs.
   unfold eel, deto, z in *. spec_unfold. cbn in Hs.
-  match type of Hs with 0 < ?a => set (sa := a) in * end.
-  assert (Hq : 0 < sqrt sa) by (apply sqrt_lt_R0; exact Hs).
-  forall_pairs_tac ltac:(
-    unfold no_fz_hag_l, no_jac_hag_l, no_fz_hag, no_jac_hag, nthR, Rpower; cbn [upd nth Nat.mul Nat.add];
-    auto_derive; unify_sqrt sa ltac:(unfold sa; field; nz); set (q := sqrt sa) in *; [ nz | field; nz ]).
+  set (la := nu * young / ((1 + nu) * (1 - 2 * nu))) in *.
+  set (mu := young / (2 * (1 + nu))) in *.
+  (* the von Mises argument in the form it has in the traced jacobian (entry (0,3): d feel0 / d dp = n0) *)
+  pose (T := nthR (no_jac_hag_l [eel0;eel1;eel2] [deto0;deto1;deto2] p young nu A E dt theta [z0;z1;z2;z3]) 3).
+  lazy beta iota zeta delta [no_jac_hag_l no_jac_hag nthR nth] in T; fold la mu in T; unfold Rminus, Rdiv in T.
+  with_sqrt T Hs ltac:(fun sb q => clear T;
+    forall_pairs_tac ltac:(
+      lazy beta iota zeta delta [no_fz_hag_l no_jac_hag_l no_fz_hag no_jac_hag nthR nth upd Nat.mul Nat.add Rpower];
+      fold la mu;
+      auto_derive; unfold Rminus, Rdiv; fold sb; fold q;
+      [ pos_side | field; pos_side ])).
 Qed.
 
 (* d fzeros / d deto = -(I ; 0) *)
@@ -35,10 +41,8 @@ Lemma no_dfddeto_hag_ok eel0 eel1 eel2 deto0 deto1 deto2 p young nu A E dt theta
   is_derive (fun x => nthR (no_fz_hag_l eel (upd deto j x) p young nu A E dt theta z) i) (nthR deto j) (- delta i j).
 Proof.
   intros eel deto z H1 H2 Hs.
-  unfold eel, deto, z in *. spec_unfold. cbn in Hs.
-  match type of Hs with 0 < ?a => set (sa := a) in * end.
-  assert (Hq : 0 < sqrt sa) by (apply sqrt_lt_R0; exact Hs).
+  unfold eel, deto, z in *. clear Hs.
   forall_pairs_tac ltac:(
-    unfold no_fz_hag_l, no_fz_hag, nthR, Rpower, delta; cbn [upd nth Nat.eqb];
+    lazy beta iota zeta delta [no_fz_hag_l no_fz_hag nthR nth upd delta Nat.eqb];
     auto_derive; [ exact I | ring ]).
 Qed.
